@@ -191,3 +191,50 @@ def count_nontrivial(path):
             if '"ds":[]' not in ln:
                 n += 1
     return n
+
+
+def replay(ctx, prop):
+    """bin/check <id> --replay <file>: re-execute the recorded failing case alone.
+    A driver mismatch is re-run on the real code; a rejected trace event is re-judged by TLC.
+    Returns True when a replay was requested (the check then does nothing else)."""
+    path = getattr(ctx, "replay", None)
+    if not path:
+        return False
+    with open(path) as f:
+        obj = json.load(f)
+    rp = obj.get("replay", {})
+    env = driver_env(ctx)
+    if "case" in rp:
+        c = rp["case"]
+        one = ctx.path("replay_case.ndjson")
+        vlib.write_ndjson(one, [c])
+        kind = c.get("kind")
+        if kind == "ds":
+            rep = vlib.run_driver("drv_dataset", ["replay", "--cases", one, "--out", ctx.path("rp"), "--props", prop], env=env)
+            report_mismatches(ctx, rep, prop)
+            if prop == "C04":
+                validate(ctx, "Trace_PS35", rep["streams_path"], "replayed case")
+        elif kind == "tokens":
+            rep = vlib.run_driver("drv_dataset", ["tokens", "--cases", one, "--out", ctx.path("rp")], env=env)
+            report_mismatches(ctx, rep, prop)
+        elif kind == "cmd":
+            rep = vlib.run_driver("drv_command", ["cases", "--cases", one], env=env)
+            for m in rep["mismatches"]:
+                ctx.violation(m["fp"], json.dumps(m)[:600], m)
+        else:
+            rep = vlib.run_driver("drv_header", ["cases", "--cases", one], env=env)
+            for m in rep["mismatches"]:
+                ctx.violation(m["fp"], json.dumps(m)[:600], m)
+        ctx.cov["evaluations"] += 1
+    elif "rejected_event" in rp:
+        ev = rp["rejected_event"]
+        one = ctx.path("replay_event.ndjson")
+        vlib.write_ndjson(one, [ev])
+        module = {"cmd": "Trace_Cmd", "vrrow": "Trace_VR"}.get(ev.get("ev"), "Trace_PS35")
+        if module == "Trace_VR":
+            raise vlib.ToolError("a VR-table rejection is replayed by running the check itself")
+        validate(ctx, module, one, "replayed recorded event (re-judged by TLC; run the check to re-execute the code)")
+    else:
+        raise vlib.ToolError("replay file has neither a case nor a recorded event")
+    ctx.note("replay of %s" % os.path.basename(path))
+    return True
